@@ -138,6 +138,7 @@ class PackageGenerator:
         self._generated_files: List[str] = []
         self._unpacked_fragments: Set[str] = set()
         self._used_enums: List[str] = []
+        self._operations: List[tuple] = []
 
         self.enable_custom_operations = enable_custom_operations
         if self.enable_custom_operations:
@@ -149,9 +150,10 @@ class PackageGenerator:
         self._validate_unique_file_names()
         if not self.package_path.exists():
             self.package_path.mkdir()
+        self._generate_fragments()
+        self._add_client_methods()
         self._generate_input_types()
         self._generate_result_types()
-        self._generate_fragments()
         self._copy_files()
         if self.enable_custom_operations:
             self._generate_custom_fields_typing()
@@ -205,19 +207,32 @@ class PackageGenerator:
         )
         self._used_enums.extend(query_types_generator.get_used_enums())
         self._result_types_files[file_name] = query_types_generator.generate()
-        operation_str = query_types_generator.get_operation_as_str()
         self.init_generator.add_import(
             query_types_generator.get_generated_public_names(), module_name, 1
         )
-
-        self.client_generator.add_method(
-            definition=definition,
-            name=method_name,
-            return_type=return_type_name,
-            return_type_module=module_name,
-            operation_str=operation_str,
-            async_=self.async_client,
+        self._operations.append(
+            (definition, method_name, return_type_name, module_name, query_types_generator)
         )
+
+    def _add_client_methods(self):
+        # Operation strings are printed after the fragments module is generated:
+        # generating fragment classes adds __typename to abstract selections
+        # inside fragment definitions, and the sent document has to contain it.
+        for (
+            definition,
+            method_name,
+            return_type_name,
+            module_name,
+            query_types_generator,
+        ) in self._operations:
+            self.client_generator.add_method(
+                definition=definition,
+                name=method_name,
+                return_type=return_type_name,
+                return_type_module=module_name,
+                operation_str=query_types_generator.get_operation_as_str(),
+                async_=self.async_client,
+            )
 
     def _include_exceptions(self):
         if self.base_client_file_path in (
